@@ -263,7 +263,8 @@ def zone_literals(acc):
 def leap_literals(acc):
     for h, m, frac, z, date in itertools.product(
             [0, 12, 23], [0, 59], [None, "0", "5", "123456"], ["", "Z"],
-            [None, "2001-12-31", "1998-365", "0001-01-01"]):
+            [None, "2001-12-31", "1998-365", "0001-01-01", "2010-12-31", "2000-366",
+             "1990-06-30"]):
         text = (date + "T" if date else "") + f"{h:02d}:{m:02d}:60" + \
             ("." + frac if frac else "") + z
         for d in PARSERS:
